@@ -9,7 +9,7 @@ from carbon.conf import settings  # noqa: E402
 LAGS = [0, 950]
 
 
-def _stop_point(cmod, strat, lagi, stop_at, pre, s1, s2, m1, m2, ub, shut_set):
+def _stop_point(cmod, strat, lagi, stop_at, pre, s1, s2, m1, m2, ub, shut_set, future=False):
   """writeForever with the stop arriving at a symbolic event index.  Events = every point where the
   other threads can run relative to the writer loop: each read of reactor.running, each sleep, each
   backend call.  The receiving thread stores datapoints at symbolic event indices before the stop.
@@ -34,8 +34,9 @@ def _stop_point(cmod, strat, lagi, stop_at, pre, s1, s2, m1, m2, ub, shut_set):
     for (sj, mj, j) in planned:
       if sj == i:
         m = K.METRICS[mj]
-        cache.store(m, (100 + j, j))
-        accepted.append((m, 100 + j, j))
+        ts = 100 + j if not (future and j == 0) else 5000        # optionally stamped ahead of the writer's clock (client clock skew)
+        cache.store(m, (ts, j))
+        accepted.append((m, ts, j))
     if i == stop_at:
       W.writer.shutdownModifyUpdateSpeed()
       reactor.stop()
@@ -74,7 +75,7 @@ def _stop_point(cmod, strat, lagi, stop_at, pre, s1, s2, m1, m2, ub, shut_set):
   return True
 
 
-def C04_stop_point(strat: int, lagi: int, stop_at: int, pre: bool, s1: int, s2: int, m1: int, m2: int, ub: bool, shut_set: bool) -> bool:
+def C04_stop_point(strat: int, lagi: int, stop_at: int, pre: bool, s1: int, s2: int, m1: int, m2: int, ub: bool, shut_set: bool, future: bool) -> bool:
   """
   pre: 0 <= strat <= 6
   pre: 0 <= lagi <= 1
@@ -83,11 +84,11 @@ def C04_stop_point(strat: int, lagi: int, stop_at: int, pre: bool, s1: int, s2: 
   pre: 0 <= m1 <= 1 and 0 <= m2 <= 1
   post: __return__
   """
-  return _stop_point(K.SHADOW, strat, lagi, stop_at, pre, s1, s2, m1, m2, ub, shut_set)
+  return _stop_point(K.SHADOW, strat, lagi, stop_at, pre, s1, s2, m1, m2, ub, shut_set, future)
 
 
-def replay_stop_point(strat, lagi, stop_at, pre, s1, s2, m1, m2, ub, shut_set):
-  return _stop_point(K.real_cache, strat, lagi, stop_at, pre, s1, s2, m1, m2, ub, shut_set)
+def replay_stop_point(strat, lagi, stop_at, pre, s1, s2, m1, m2, ub, shut_set, future):
+  return _stop_point(K.real_cache, strat, lagi, stop_at, pre, s1, s2, m1, m2, ub, shut_set, future)
 
 
 def _shards(max_stop):
@@ -102,7 +103,7 @@ _ASSUME = ['Twisted shutdown as documented: the "before shutdown" triggers run f
            'real carbon.writer module with patched globals; cache = message-stripped shadow of carbon.cache (replay: real); statement-level preemption inside a pass: race machinery']
 
 HARNESSES = [
-  H('C04_stop_point', quick=dict(timeout=280, shards=_shards(4), extra_pre=['ub == shut_set']), thorough=dict(timeout=1200, shards=_shards(7)),
+  H('C04_stop_point', quick=dict(timeout=280, shards=_shards(4), extra_pre=['ub == shut_set', 'future == (strat == 4)']), thorough=dict(timeout=1200, shards=_shards(7)),
     covers=['stopped', 'had_data'], replay='replay_stop_point', twin_pre=['strat == 3 and stop_at == 3'],
     encodes=['carbon.writer:writeForever', 'carbon.writer:writeCachedDataPoints', 'carbon.writer:shutdownModifyUpdateSpeed',
              'carbon.cache:_MetricCache.store', 'carbon.cache:_MetricCache.drain_metric'],
